@@ -311,3 +311,7 @@ func vh_C07_L3_partly_received_follower_survives_skip() {
 	vassert(err == nil && n == 3 && vBytesEq(buf[:n], follower.bytes) && ppi == PayloadTypeWebRTCString, "and is delivered intact")
 	vcover("end")
 }
+
+// C07.L5: the receiver's cumulative jump clears exactly the skipped range of its TSN bitmap,
+// so nothing received behind it is forgotten and nothing skipped stays marked (= C05.S1).
+func vh_C07_L5_skip_clears_exactly_its_range() { vh_C05_step_clear_range() }
